@@ -296,6 +296,12 @@ func (m *collection) mergerMain(stackDirtyMid, stackDirtyBase *segmentStack,
 		m.m.Lock()
 		stackDirtyMidPrev := m.stackDirtyMid
 		m.stackDirtyMid = mergedStackDirtyMid
+
+		// The cached snapshot was built from the stack just replaced;
+		// drop it, so that new snapshots read (and pin in memory) the
+		// merged stack that Collection.Get() reads.
+		m.invalidateLatestSnapshotLOCKED()
+
 		verifTrace("merger.swap", m)
 		m.m.Unlock()
 
